@@ -173,7 +173,7 @@ theorem stream_cons_len (c : Cmd) (cs : List Cmd) : (encCmd c).length ≤ (strea
 /-- after a whole well-formed pipeline, a peer that never refuses: the loop is still running, the
     read buffer is empty, and the executor is in the state reached by executing every command once,
     in order, on the generic path -/
-theorem runW_final {σ : Type} (ex : Exec σ) (s0 : σ) (cfg : Config) (h14 : cfg.headerLen = 14)
+theorem runW_final {σ : Type} (ex : Exec σ) (s0 : σ) (cfg : Config) (h14 : DeadCfg cfg)
     (hc : cfg.codec = codec1) (hd : 1 ≤ cfg.env.depth) (cmds : List Cmd) (segs : List Bytes) (script : List WEv)
     (h : segs.flatten = stream cmds) (hs : Small (stream cmds)) (hmax : (stream cmds).length ≤ cfg.maxBuffer)
     (hok : ∀ c ∈ cmds, CmdOK cfg c) (hnf : NoFail script = true) :
